@@ -519,6 +519,7 @@ func (cd *cmdDispatcher) invokeHandler(handler cmdHandler, ctx *cmdContext) (res
 		}
 	}()
 
+	verifPoint("cmd:handler", ctx.cs.id, ctx.cmdToken)
 	return handler(ctx, ctx.args.m)
 }
 
